@@ -46,6 +46,22 @@ func vacuous(r *ev.Run, st *lx.SeqStats, need ...string) {
 }
 
 func init() {
+	// for ReplaySeq: the oracle of both configurations of C02
+	seqSets["C02"] = seqCheck{id: "C02", sigs: c02Sigs, restart: true, check: func(ctx context.Context, s *lx.StepInfo, rep *lx.Report) {
+		for _, n := range sortedLedgers(s.Ctrls) {
+			if n == "twin" {
+				continue
+			}
+			sub := &lx.Report{}
+			lx.CheckCurrent(ctx, s.Ctrls[n], s.Refs[n], sub)
+			for _, m := range sub.Items {
+				rep.Add(m.Sig, "%s: %s", n, m.What)
+			}
+		}
+		if s.Ctrls["twin"] != nil {
+			twinLeg(ctx, s, rep, func(c ledgercontroller.Controller, sub *lx.Report) { lx.CheckCurrent(ctx, c, s.Ref, sub) })
+		}
+	}}
 	reg.Register("C02", func() int {
 		r := ev.Start("C02", ev.LevelMC, 100*time.Second, 15*time.Minute)
 		// first configuration (small, run first so that a time cut never drops it): the population of the ledger's BUCKET changes during the
